@@ -1,5 +1,5 @@
 CONSTANTS
-  MaxSteps = 2
+  MaxSteps = 3
   DEV_CreditBeforeDebit = FALSE
   DEV_FeeOnBothSides = FALSE
 SPECIFICATION Spec
